@@ -250,140 +250,136 @@ impl Prop for Sem {
     }
     fn run_case(&self, seed: u64, idx: u64, want_sample: bool) -> CaseOut {
         let mut rng = Rng::for_case(seed, self.id, idx);
-        let prog = match gprog::generate_valid(&mut rng) {
-            Ok(p) => p,
-            Err(_) => {
-                let mut out = CaseOut::default();
-                out.inconclusive = Some("generator reject".into());
-                return out;
-            }
-        };
-        let raw = match sym::decode(&prog.bytes) {
-            Ok(r) => r,
+        match gen_case(self.id, &mut rng) {
+            Ok((bytes, plan, calls)) => self.evaluate(&bytes, plan, calls, want_sample),
             Err(e) => {
                 let mut out = CaseOut::default();
-                out.inconclusive = Some(format!("decode: {}", e));
-                return out;
-            }
-        };
-        // ---- plan
-        let mut plan: Vec<Inj> = vec![];
-        let mut uid = 100u32;
-        let paths = [Path::Iter, Path::Modifier, Path::IterInjectAt, Path::ModifierInjectAt];
-        let mut push = |plan: &mut Vec<Inj>, func: u32, at: usize, mode: Mode, probe: Probe, rng: &mut Rng| {
-            let mut path = *rng.pick(&paths);
-            if matches!(mode, Mode::EmptyAlt | Mode::EmptyBlockAlt | Mode::FuncEntry | Mode::FuncExit) && matches!(path, Path::IterInjectAt | Path::ModifierInjectAt) {
-                path = if rng.bool() { Path::Iter } else { Path::Modifier };
-            }
-            plan.push(Inj { func, at, mode, path, uid, n_ops: 1, leading_drop: false, probe });
-            uid += 1;
-        };
-        for (k, func) in raw.funcs.iter().enumerate() {
-            let fid = raw.n_imp_funcs + k as u32;
-            let ops = &func.ops;
-            let st = lower::structure(ops);
-            // br_table sites with >= 3 entries for one target trigger the known ill-formed flag chain: kept rare
-            let keep_dense_tables = rng.chance(1, 8);
-            let branchy: Vec<usize> = ops
-                .iter()
-                .enumerate()
-                .filter(|(i, o)| {
-                    matches!(o.name.as_str(), "Br" | "BrIf" | "BrTable" | "BrOnNull")
-                        && !lower::branch_target_class(ops, *i).contains("loop")
-                        && lower::branch_target_class(ops, *i) != "mixed"
-                })
-                .filter(|(i, o)| {
-                    if o.name != "BrTable" || keep_dense_tables {
-                        return true;
-                    }
-                    let ts = lower::branch_targets_abs(ops, *i);
-                    !ts.iter().any(|t| ts.iter().filter(|u| *u == t).count() >= 3)
-                })
-                .map(|(i, _)| i)
-                .collect();
-            let plain: Vec<usize> = (0..ops.len()).collect();
-            match self.id {
-                "C16" => {
-                    for _ in 0..rng.range(1, 5) {
-                        let at = *rng.pick(&plain);
-                        let name = ops[at].name.as_str();
-                        let structured = matches!(name, "Block" | "Loop" | "If" | "Else" | "End");
-                        match rng.below(9) {
-                            0 | 1 => push(&mut plan, fid, at, Mode::Before, Probe::Host, &mut rng),
-                            2 | 3 => push(&mut plan, fid, at, Mode::After, Probe::Host, &mut rng),
-                            4 if !structured && at + 1 < ops.len() && !plan.iter().any(|i| i.func == fid && i.at == at && i.mode == Mode::Alt) => {
-                                push(&mut plan, fid, at, Mode::Alt, Probe::HostThenOrig, &mut rng)
-                            }
-                            5 if name == "Nop" && !plan.iter().any(|i| i.func == fid && i.at == at) => push(&mut plan, fid, at, Mode::EmptyAlt, Probe::Host, &mut rng),
-                            6 if !st.blockish.is_empty() => {
-                                let b = *rng.pick(&st.blockish);
-                                let m = *rng.pick(&[Mode::BlockEntry, Mode::BlockExit, Mode::SemAfter]);
-                                push(&mut plan, fid, b, m, Probe::Host, &mut rng)
-                            }
-                            7 if !branchy.is_empty() => {
-                                let b = *rng.pick(&branchy);
-                                push(&mut plan, fid, b, Mode::SemAfter, Probe::Host, &mut rng)
-                            }
-                            8 => {
-                                let m = if rng.bool() { Mode::FuncEntry } else { Mode::FuncExit };
-                                if !plan.iter().any(|i| i.func == fid && i.mode == m) {
-                                    push(&mut plan, fid, 0, m, Probe::Host, &mut rng)
-                                }
-                            }
-                            _ => {}
-                        }
-                    }
-                }
-                "C17" => {
-                    if rng.chance(3, 4) {
-                        push(&mut plan, fid, 0, Mode::FuncEntry, Probe::Host, &mut rng);
-                    }
-                    if rng.chance(3, 4) {
-                        push(&mut plan, fid, 0, Mode::FuncExit, Probe::Host, &mut rng);
-                    }
-                    if rng.chance(1, 3) {
-                        let at = *rng.pick(&plain);
-                        push(&mut plan, fid, at, Mode::Before, Probe::Host, &mut rng);
-                    }
-                }
-                "C18" | "C19" => {
-                    let mode = if self.id == "C18" { Mode::BlockEntry } else { Mode::BlockExit };
-                    for b in &st.blockish {
-                        if rng.chance(1, 2) {
-                            push(&mut plan, fid, *b, mode, Probe::Host, &mut rng);
-                        }
-                    }
-                }
-                _ => {
-                    for b in &st.blockish {
-                        if ops[*b].name != "Loop" && rng.chance(1, 3) {
-                            push(&mut plan, fid, *b, Mode::SemAfter, Probe::Host, &mut rng);
-                        }
-                    }
-                    for b in &branchy {
-                        if rng.chance(1, 2) {
-                            push(&mut plan, fid, *b, Mode::SemAfter, Probe::Host, &mut rng);
-                        }
-                    }
-                }
+                out.inconclusive = Some(e);
+                out
             }
         }
-        // function-level modes last (they are sticky on iterators)
-        plan.sort_by_key(|i| matches!(i.mode, Mode::FuncEntry | Mode::FuncExit));
-        if plan.is_empty() {
-            let mut out = CaseOut::default();
-            out.inconclusive = Some("empty plan (no applicable site)".into());
-            return out;
-        }
-        // ---- calls
-        let mut calls = vec![];
-        for (k, (np, _)) in prog.sigs.iter().enumerate() {
-            for _ in 0..rng.range(2, 4) {
-                calls.push((k as u32 + 1, args_for(&mut rng, *np)));
-            }
-        }
-        self.evaluate(&prog.bytes, plan, calls, want_sample)
     }
+}
+
+/// Program + plan + calls of one C16-C20 case (also part of the scenario pool of C04 / C05).
+pub fn gen_case(id: &str, rng: &mut Rng) -> Result<(Vec<u8>, Vec<Inj>, Vec<(u32, Vec<Val>)>), String> {
+    let prog = gprog::generate_valid(rng).map_err(|_| "generator reject".to_string())?;
+    let raw = sym::decode(&prog.bytes).map_err(|e| format!("decode: {}", e))?;
+    // ---- plan
+    let mut plan: Vec<Inj> = vec![];
+    let mut uid = 100u32;
+    let paths = [Path::Iter, Path::Modifier, Path::IterInjectAt, Path::ModifierInjectAt];
+    let mut push = |plan: &mut Vec<Inj>, func: u32, at: usize, mode: Mode, probe: Probe, rng: &mut Rng| {
+        let mut path = *rng.pick(&paths);
+        if matches!(mode, Mode::EmptyAlt | Mode::EmptyBlockAlt | Mode::FuncEntry | Mode::FuncExit) && matches!(path, Path::IterInjectAt | Path::ModifierInjectAt) {
+            path = if rng.bool() { Path::Iter } else { Path::Modifier };
+        }
+        plan.push(Inj { func, at, mode, path, uid, n_ops: 1, leading_drop: false, probe });
+        uid += 1;
+    };
+    for (k, func) in raw.funcs.iter().enumerate() {
+        let fid = raw.n_imp_funcs + k as u32;
+        let ops = &func.ops;
+        let st = lower::structure(ops);
+        // br_table sites with >= 3 entries for one target trigger the known ill-formed flag chain: kept rare
+        let keep_dense_tables = rng.chance(1, 8);
+        let branchy: Vec<usize> = ops
+            .iter()
+            .enumerate()
+            .filter(|(i, o)| {
+                matches!(o.name.as_str(), "Br" | "BrIf" | "BrTable" | "BrOnNull")
+                    && !lower::branch_target_class(ops, *i).contains("loop")
+                    && lower::branch_target_class(ops, *i) != "mixed"
+            })
+            .filter(|(i, o)| {
+                if o.name != "BrTable" || keep_dense_tables {
+                    return true;
+                }
+                let ts = lower::branch_targets_abs(ops, *i);
+                !ts.iter().any(|t| ts.iter().filter(|u| *u == t).count() >= 3)
+            })
+            .map(|(i, _)| i)
+            .collect();
+        let plain: Vec<usize> = (0..ops.len()).collect();
+        match id {
+            "C16" => {
+                for _ in 0..rng.range(1, 5) {
+                    let at = *rng.pick(&plain);
+                    let name = ops[at].name.as_str();
+                    let structured = matches!(name, "Block" | "Loop" | "If" | "Else" | "End");
+                    match rng.below(9) {
+                        0 | 1 => push(&mut plan, fid, at, Mode::Before, Probe::Host, rng),
+                        2 | 3 => push(&mut plan, fid, at, Mode::After, Probe::Host, rng),
+                        4 if !structured && at + 1 < ops.len() && !plan.iter().any(|i| i.func == fid && i.at == at && i.mode == Mode::Alt) => {
+                            push(&mut plan, fid, at, Mode::Alt, Probe::HostThenOrig, rng)
+                        }
+                        5 if name == "Nop" && !plan.iter().any(|i| i.func == fid && i.at == at) => push(&mut plan, fid, at, Mode::EmptyAlt, Probe::Host, rng),
+                        6 if !st.blockish.is_empty() => {
+                            let b = *rng.pick(&st.blockish);
+                            let m = *rng.pick(&[Mode::BlockEntry, Mode::BlockExit, Mode::SemAfter]);
+                            push(&mut plan, fid, b, m, Probe::Host, rng)
+                        }
+                        7 if !branchy.is_empty() => {
+                            let b = *rng.pick(&branchy);
+                            push(&mut plan, fid, b, Mode::SemAfter, Probe::Host, rng)
+                        }
+                        8 => {
+                            let m = if rng.bool() { Mode::FuncEntry } else { Mode::FuncExit };
+                            if !plan.iter().any(|i| i.func == fid && i.mode == m) {
+                                push(&mut plan, fid, 0, m, Probe::Host, rng)
+                            }
+                        }
+                        _ => {}
+                    }
+                }
+            }
+            "C17" => {
+                if rng.chance(3, 4) {
+                    push(&mut plan, fid, 0, Mode::FuncEntry, Probe::Host, rng);
+                }
+                if rng.chance(3, 4) {
+                    push(&mut plan, fid, 0, Mode::FuncExit, Probe::Host, rng);
+                }
+                if rng.chance(1, 3) {
+                    let at = *rng.pick(&plain);
+                    push(&mut plan, fid, at, Mode::Before, Probe::Host, rng);
+                }
+            }
+            "C18" | "C19" => {
+                let mode = if id == "C18" { Mode::BlockEntry } else { Mode::BlockExit };
+                for b in &st.blockish {
+                    if rng.chance(1, 2) {
+                        push(&mut plan, fid, *b, mode, Probe::Host, rng);
+                    }
+                }
+            }
+            _ => {
+                for b in &st.blockish {
+                    if ops[*b].name != "Loop" && rng.chance(1, 3) {
+                        push(&mut plan, fid, *b, Mode::SemAfter, Probe::Host, rng);
+                    }
+                }
+                for b in &branchy {
+                    if rng.chance(1, 2) {
+                        push(&mut plan, fid, *b, Mode::SemAfter, Probe::Host, rng);
+                    }
+                }
+            }
+        }
+    }
+    // function-level modes last (they are sticky on iterators)
+    plan.sort_by_key(|i| matches!(i.mode, Mode::FuncEntry | Mode::FuncExit));
+    if plan.is_empty() {
+        return Err("empty plan (no applicable site)".into());
+    }
+    // ---- calls
+    let mut calls = vec![];
+    for (k, (np, _)) in prog.sigs.iter().enumerate() {
+        for _ in 0..rng.range(2, 4) {
+            calls.push((k as u32 + 1, args_for(rng, *np)));
+        }
+    }
+    Ok((prog.bytes, plan, calls))
 }
 
 impl Sem {
